@@ -29,7 +29,7 @@ from z3 import And, Array, BoolVal, Implies, Int, IntSort, Not, Or, Real, RealSo
 
 from vf import bounded as B
 from vf import prims as P
-from vf.common import label, new_exec, run_function, run_method
+from vf.common import multi_path_meta, label, new_exec, run_function, run_method
 from vf.engine import Axis, Obj, Oblig, Path, T, same_size, toB, toI, toR
 from vf.proof import prove
 
@@ -87,7 +87,7 @@ def build_init():
 
         def ob(name, goal, hyps, kind="post", meta=None):
             obs.append(Oblig(f"C12/__init__/{name}{tag}", hyps, goal, kind, ("C12",), dict({"key": f"C12/__init__/{name}"}, **(meta or {}))))
-        ob("single-path", BoolVal(len(outs) == 1 and not outs[0].raised), [], "post")
+        ob("single-path", BoolVal(len(outs) == 1 and not outs[0].raised), [], "post", multi_path_meta(outs))
         if len(outs) != 1 or outs[0].raised:
             continue
         o = outs[0]
@@ -136,7 +136,7 @@ def build_getitem():
 
         def ob(name, goal, hyps, kind="post", meta=None):
             obs.append(Oblig(f"C12/__getitem__/{name}{tag}", hyps, goal, kind, ("C12",), dict({"key": f"C12/__getitem__/{name}"}, **(meta or {}))))
-        ob("single-path", BoolVal(len(outs) == 1 and not outs[0].raised), [], "post")
+        ob("single-path", BoolVal(len(outs) == 1 and not outs[0].raised), [], "post", multi_path_meta(outs))
         if len(outs) != 1 or outs[0].raised:
             continue
         o = outs[0]
@@ -188,7 +188,7 @@ def build_group_cm():
     t = Real("t")
     outs = run_method(ex, "GroupScores", "group_cm", me, [t], path=path)
     ok = len(outs) == 1 and not outs[0].raised
-    obs.append(Oblig("C12/group_cm/single-path", [], BoolVal(ok), "post", ("C12",)))
+    obs.append(Oblig("C12/group_cm/single-path", [], BoolVal(ok), "post", ("C12",), multi_path_meta(outs)))
     if ok:
         r = outs[0].value
         okr = isinstance(r, Obj) and r.cls == "ConfusionMatrix" and r.attrs.get("binary") is True and isinstance(r.attrs.get("matrix"), T) and \
@@ -338,13 +338,13 @@ def build_partition():
             obs.append(Oblig(f"C12/partition/{name}{tag}", hyps, goal, kind, ("C12",), dict({"key": f"C12/partition/{name}"}, **(meta or {}))))
         o1 = run_method(ex, "GroupScores", "group_cm", me, [t], path=path)
         ok = len(o1) == 1 and not o1[0].raised
-        ob("group_cm-single-path", BoolVal(ok), [], "post")
+        ob("group_cm-single-path", BoolVal(ok), [], "post", multi_path_meta(o1))
         if not ok:
             continue
         GM = o1[0].value.attrs["matrix"]
         o2 = run_method(ex, "Scores", "cm", me, [t], path=o1[0].path)
         ok2 = len(o2) == 1 and not o2[0].raised
-        ob("cm-single-path", BoolVal(ok2), [], "post")
+        ob("cm-single-path", BoolVal(ok2), [], "post", multi_path_meta(o2))
         if not ok2:
             continue
         OM = o2[0].value.attrs["matrix"]
@@ -499,7 +499,7 @@ def build_bootstrap_by_group():
             obs.append(Oblig(f"C12/bootstrap/executes{tag}", [], BoolVal(False), "post", ("C12",), {"engine_error": f"{type(e).__name__}: {e}"}))
             continue
         live = [o for o in outs if not o.raised]
-        obs.append(Oblig(f"C12/bootstrap/returns-without-raising{tag}", [], BoolVal(len(live) == 1 and len(outs) == 1), "post", ("C12",), {"paths": len(outs)}))
+        obs.append(Oblig(f"C12/bootstrap/returns-without-raising{tag}", [], BoolVal(len(live) == 1 and len(outs) == 1), "post", ("C12",), dict({"paths": len(outs)}, **multi_path_meta(outs))))
         obs.append(Oblig(f"C12/bootstrap/every-group-resampled-once{tag}", [], BoolVal(sorted(g for (nm, g) in idxs if nm == "pos") == sorted(GROUPS)), "post", ("C12",)))
         for o in live:
             w_, hy = o.value, o.path.pc
